@@ -430,14 +430,17 @@ def call_values(I, c, args, e=None, env=None):
             I.quant_depth = d
         if not isinstance(probe, Cond):
             raise Undecided("%s predicate is not a condition" % name)
-        return Cond("key", "%s%s∈%s: (%s)" % ("∃" if name == "any" else "∀", dummy, s_.classes[0], probe.key()))
+        return Cond("key", "%s%s∈%s: (%s)" % ("∃" if name == "any" else "∀", dummy, s_.classes[0], probe.key()),
+                    tree=("exists" if name == "any" else "forall", dummy, s_.classes[0], probe.tree))
     if name == "filter" and isinstance(args[0], Arr) and isinstance(args[1], (Closure, FnItem)):
         s_, clo = args[0], args[1]
         probe = I.apply(clo, [s_.at("§")])
         if not isinstance(probe, Cond):
             raise Undecided("filter predicate is not a condition")
         cls = "{§∈%s | %s}" % (s_.classes[0], probe.key())
-        return Arr((cls,), lambda k, _s=s_: _s.at(k), name="filter")
+        out = Arr((cls,), lambda k, _s=s_: _s.at(k), name="filter")
+        out.filter_of = (s_, probe)
+        return out
     if name == "last" and isinstance(args[0], Arr) and not isinstance(args[0], ListV) and not hasattr(args[0], "m_last"):
         I.assumptions.append("last(): the sequence is assumed non-empty")
         return Opt(True, args[0].at("last"))
